@@ -681,7 +681,20 @@ def worker_C16(payload):
     cfg = payload["cfg"]
     viol = []
     try:
-        m = sim.build_model(cfg)
+        if payload.get("prehistory"):
+            # HISTORY: the user's input objects (crop, soil, managements, groundwater, CO2, weather table) were used before by another
+            # simulation over a window shifted by some years; the configuration is as valid as before
+            objs = sim.build_objects(cfg)
+            try:
+                yrs = int(payload["prehistory"])
+                st = pd.Timestamp(cfg["start"]) + pd.DateOffset(years=yrs); en = pd.Timestamp(cfg["end"]) + pd.DateOffset(years=yrs)
+                pre = sim.AquaCropModel(**dict(objs, sim_start_time=st.strftime("%Y/%m/%d"), sim_end_time=en.strftime("%Y/%m/%d")))
+                pre.run_model(till_termination=True)
+            except Exception:
+                pass
+            m = sim.AquaCropModel(**objs)
+        else:
+            m = sim.build_model(cfg)
         m.run_model(till_termination=True)
     except Exception as e:
         x = sim.exc_info(e)
@@ -698,7 +711,7 @@ def worker_C16(payload):
                 ("plant_years[0]" in str(x.get("stmt")) or "planting_dates[0]" in str(x.get("stmt"))):
             tag = ":empty_season_list"
         return {"status": "exception", "exc": x, "cfg": cfg,
-                "violations": [dict(V("C16:raises:%s:%s%s" % (x["type"], x["origin"], tag), "valid configuration raised %s at %s: %s" % (x["type"], x["last"], x["msg"][:160]), exc=x), cfg=cfg)]}
+                "violations": [dict(V("C16:raises:%s:%s%s" % (x["type"], x["origin"], tag), "valid configuration%s raised %s at %s: %s" % (" (input objects used before by another simulation)" if payload.get("prehistory") else "", x["type"], x["last"], x["msg"][:160]), exc=x), cfg=cfg, **({"prehistory": payload["prehistory"]} if payload.get("prehistory") else {}))]}
     t = tables_of(m)
     wt = int(m._param_struct.water_table)
     steps = [i for i in range(len(t["flux"])) if i == 0 or t["flux"][i, 0] == i and (t["flux"][i, 0] != 0)]
@@ -724,6 +737,7 @@ def worker_C16(payload):
         viol.append(V("C16:not_finished", "run returned without finishing"))
     for v in viol:
         v["cfg"] = cfg
+        if payload.get("prehistory"): v["prehistory"] = payload["prehistory"]
     return {"status": "ok", "violations": viol, "steps": len(steps), "seasons": len(t["final"]), "cfg_sig": [cfg["crop"]["name"], cfg["soil"]["type"], cfg["irr"]["irrigation_method"]]}
 
 
